@@ -717,3 +717,297 @@ Proof.
 Qed.
 
 End RoundTrip.
+
+(* ------------------------------------------------------------------------------------------- *)
+(* from the documented ranks ([dwf]) to the table-relative conditions ([wf]) *)
+
+Section Bridge.
+Variable T : ptab.
+Hypothesis OK : tab_ok T.
+
+Let P (o : binop) : nat := pt_prec T (bt o).
+Let U : nat := pt_unary_level T.
+Let N' (o : binop) : nat := pt_next T (pt_prec T (bt o)).
+
+Lemma prec_le a b : doc_rank a <= doc_rank b -> P a <= P b.
+Proof.
+  intros H. destruct (Nat.eq_dec (doc_rank a) (doc_rank b)) as [E|NE].
+  - unfold P. rewrite (ok_eq T OK a b E). lia.
+  - destruct (ok_lt T OK a b ltac:(lia)) as [X _]. unfold P. lia.
+Qed.
+
+(* right spine, in documented ranks *)
+Fixpoint rsp (t : ox) (ro : nat) : Prop :=
+  match t with
+  | OBin o2 _ r2 => ro <= doc_rank o2 /\ rsp r2 ro
+  | OUn _ x => ro <= 5 /\ rsp x ro
+  | _ => True
+  end.
+
+Definition headcond (t : ox) (ro : nat) : Prop :=
+  match t with
+  | OBin o2 _ _ => ro <= doc_rank o2
+  | OUn _ _ => ro <= 5
+  | _ => True
+  end.
+
+Lemma rsp_rstop t o : rsp t (doc_rank o) -> rstop T t (P o).
+Proof.
+  induction t as [z|r ps|o2 l2 _ r2 IH|u x IH|x _]; cbn [rsp rstop]; trivial.
+  - intros [H1 H2]. split; [|apply IH; exact H2].
+    pose proof (prec_le o o2 H1). pose proof (ok_next T OK o2). unfold P in *. lia.
+  - intros [H1 H2]. split; [|apply IH; exact H2].
+    apply (ok_unary T OK). unfold doc_below_unary. apply Nat.leb_le. exact H1.
+Qed.
+
+Lemma below_unary_rank o : is_product o = false -> doc_rank o <= 5.
+Proof. unfold is_product, doc_below_unary. intros H. apply negb_false_iff in H. apply Nat.leb_le. exact H. Qed.
+
+Lemma dwf_rsp t : dwf t = true -> forall ro, headcond t ro -> rsp t ro.
+Proof.
+  induction t as [z|r ps|o2 l2 _ r2 IH|u x IH|x _]; cbn [rsp]; trivial; intros D ro Hc; cbn [headcond] in Hc.
+  - cbn [dwf] in D. apply andb_prop in D. destruct D as [D Dr]. apply andb_prop in D. destruct D as [D Dl].
+    apply andb_prop in D. destruct D as [Nl Nr]. apply negb_true_iff in Nr.
+    split; [exact Hc|]. apply IH; [exact Dr|].
+    destruct r2 as [z|r0 ps0|o3 l3 r3|u3 x3|x3]; cbn [headcond]; trivial.
+    + cbn [need_r] in Nr. apply Nat.leb_gt in Nr. lia.
+    + cbn [need_r] in Nr. apply below_unary_rank in Nr. lia.
+  - cbn [dwf] in D. apply andb_prop in D. destruct D as [Nu Dx]. apply negb_true_iff in Nu.
+    split; [exact Hc|]. apply IH; [exact Dx|].
+    destruct x as [z|r0 ps0|o3 l3 r3|u3 x3|x3]; cbn [headcond]; trivial. discriminate.
+Qed.
+
+Lemma dwf_wf_all :
+  (forall e, dwf e = true -> wf T e) /\ (forall ps, dwf_posts ps = true -> wfp T ps)
+  /\ (forall args, dwf_args args = true -> wfa T args).
+Proof.
+  apply ox_mutind; cbn [dwf dwf_posts dwf_args wf wfp wfa]; trivial.
+  - intros o l IHl r IHr D.
+    apply andb_prop in D. destruct D as [D Dr]. apply andb_prop in D. destruct D as [D Dl].
+    apply andb_prop in D. destruct D as [Nl Nr]. apply negb_true_iff in Nl. apply negb_true_iff in Nr.
+    repeat split; [| | |apply IHl; exact Dl|apply IHr; exact Dr].
+    + destruct l as [z|r0 ps0|o2 l2 r2|u2 x2|x2]; cbn [accepts]; trivial.
+      cbn [need_l] in Nl. apply Nat.ltb_ge in Nl. apply prec_le. exact Nl.
+    + apply rsp_rstop. apply dwf_rsp; [exact Dl|].
+      destruct l as [z|r0 ps0|o2 l2 r2|u2 x2|x2]; cbn [headcond]; trivial.
+      * cbn [need_l] in Nl. apply Nat.ltb_ge in Nl. exact Nl.
+      * cbn [need_l] in Nl. apply below_unary_rank. exact Nl.
+    + destruct r as [z|r0 ps0|o2 l2 r2|u2 x2|x2]; cbn [accepts]; trivial.
+      cbn [need_r] in Nr. apply Nat.leb_gt in Nr. destruct (ok_lt T OK o o2 Nr) as [_ X]. exact X.
+  - intros u x IH D. apply andb_prop in D. destruct D as [Nu Dx]. apply negb_true_iff in Nu.
+    split; [|apply IH; exact Dx].
+    destruct x as [z|r0 ps0|o2 l2 r2|u2 x2|x2]; cbn [accepts]; trivial. discriminate.
+  - intros args IHa ps IHp D. apply andb_prop in D. destruct D as [Da Dp]. split; [apply IHa|apply IHp]; assumption.
+  - intros e IHe r IHr D. apply andb_prop in D. destruct D as [De Dr]. split; [apply IHe|apply IHr]; assumption.
+Qed.
+
+End Bridge.
+
+(* ------------------------------------------------------------------------------------------- *)
+(* the two printers produce trees whose literal printing parses back *)
+
+Lemma dwf_wrap b x : dwf (wrap b x) = dwf x.
+Proof. destruct b; reflexivity. Qed.
+
+Lemma need_l_wrap o x : need_l o (wrap (need_l o x) x) = false.
+Proof. destruct (need_l o x) eqn:E; [reflexivity|exact E]. Qed.
+Lemma need_r_wrap o x : need_r o (wrap (need_r o x) x) = false.
+Proof. destruct (need_r o x) eqn:E; [reflexivity|exact E]. Qed.
+Lemma need_u_wrap x : need_u (wrap (need_u x) x) = false.
+Proof. destruct (need_u x) eqn:E; [reflexivity|exact E]. Qed.
+
+Lemma need_l_full o x : need_l o (wrap (is_op x) x) = false.
+Proof. destruct x; reflexivity. Qed.
+Lemma need_r_full o x : need_r o (wrap (is_op x) x) = false.
+Proof. destruct x; reflexivity. Qed.
+Lemma need_u_full x : need_u (wrap (is_op x) x) = false.
+Proof. destruct x; reflexivity. Qed.
+
+Lemma dwf_minp_all :
+  (forall e, dwf (minp e) = true) /\ (forall ps, dwf_posts (minp_posts ps) = true)
+  /\ (forall args, dwf_args (minp_args args) = true).
+Proof.
+  apply ox_mutind; cbn [minp minp_posts minp_args dwf dwf_posts dwf_args]; trivial.
+  - intros o l IHl r IHr. rewrite need_l_wrap, need_r_wrap, !dwf_wrap, IHl, IHr. reflexivity.
+  - intros u x IH. rewrite need_u_wrap, dwf_wrap, IH. reflexivity.
+  - intros args IHa ps IHp. rewrite IHa, IHp. reflexivity.
+  - intros e IHe r IHr. rewrite IHe, IHr. reflexivity.
+Qed.
+
+Lemma dwf_fullp_all :
+  (forall e, dwf (fullp e) = true) /\ (forall ps, dwf_posts (fullp_posts ps) = true)
+  /\ (forall args, dwf_args (fullp_args args) = true).
+Proof.
+  apply ox_mutind; cbn [fullp fullp_posts fullp_args dwf dwf_posts dwf_args]; trivial.
+  - intros o l IHl r IHr. rewrite need_l_full, need_r_full, !dwf_wrap, IHl, IHr. reflexivity.
+  - intros u x IH. rewrite need_u_full, dwf_wrap, IH. reflexivity.
+  - intros args IHa ps IHp. rewrite IHa, IHp. reflexivity.
+  - intros e IHe r IHr. rewrite IHe, IHr. reflexivity.
+Qed.
+
+Lemma lower_wrap b x : lower_ok (wrap b x) = lower_ok x.
+Proof. destruct b; reflexivity. Qed.
+
+Lemma lower_minp_all :
+  (forall e, lower_ok (minp e) = lower_ok e) /\ (forall ps, lower_posts (minp_posts ps) = lower_posts ps)
+  /\ (forall args, lower_args (minp_args args) = lower_args args).
+Proof.
+  apply ox_mutind; cbn [minp minp_posts minp_args lower_ok lower_posts lower_args]; trivial.
+  - intros r ps IH. rewrite IH. reflexivity.
+  - intros o l IHl r IHr. rewrite !lower_wrap, IHl, IHr. reflexivity.
+  - intros u x IH. rewrite lower_wrap. exact IH.
+  - intros n ps IH. rewrite IH. reflexivity.
+  - intros args IHa ps IHp. rewrite IHa, IHp. reflexivity.
+  - intros e IHe r IHr. rewrite IHe, IHr. reflexivity.
+Qed.
+
+Lemma lower_fullp_all :
+  (forall e, lower_ok (fullp e) = lower_ok e) /\ (forall ps, lower_posts (fullp_posts ps) = lower_posts ps)
+  /\ (forall args, lower_args (fullp_args args) = lower_args args).
+Proof.
+  apply ox_mutind; cbn [fullp fullp_posts fullp_args lower_ok lower_posts lower_args]; trivial.
+  - intros r ps IH. rewrite IH. reflexivity.
+  - intros o l IHl r IHr. rewrite !lower_wrap, IHl, IHr. reflexivity.
+  - intros u x IH. rewrite lower_wrap. exact IH.
+  - intros n ps IH. rewrite IH. reflexivity.
+  - intros args IHa ps IHp. rewrite IHa, IHp. reflexivity.
+  - intros e IHe r IHr. rewrite IHe, IHr. reflexivity.
+Qed.
+
+Lemma unparen_wrap b x : unparen (wrap b x) = unparen x.
+Proof. destruct b; reflexivity. Qed.
+
+Lemma unparen_minp_all :
+  (forall e, unparen (minp e) = unparen e) /\ (forall ps, unparen_posts (minp_posts ps) = unparen_posts ps)
+  /\ (forall args, unparen_args (minp_args args) = unparen_args args).
+Proof.
+  apply ox_mutind; cbn [minp minp_posts minp_args unparen unparen_posts unparen_args]; trivial;
+    intros; rewrite ?unparen_wrap; congruence.
+Qed.
+
+Lemma unparen_fullp_all :
+  (forall e, unparen (fullp e) = unparen e) /\ (forall ps, unparen_posts (fullp_posts ps) = unparen_posts ps)
+  /\ (forall args, unparen_args (fullp_args args) = unparen_args args).
+Proof.
+  apply ox_mutind; cbn [fullp fullp_posts fullp_args unparen unparen_posts unparen_args]; trivial;
+    intros; rewrite ?unparen_wrap; congruence.
+Qed.
+
+(* [strip_e] (all Parenthesis nodes removed from the public tree) commutes with the embedding *)
+Fixpoint strip_list (l : list expr) : list expr :=
+  match l with [] => [] | x :: l' => strip_e x :: strip_list l' end.
+
+Lemma strip_emb_all :
+  (forall e, strip_e (emb e) = emb (unparen e))
+  /\ (forall ps a, strip_a (emb_posts a ps) = emb_posts (strip_a a) (unparen_posts ps))
+  /\ (forall args, strip_list (emb_args args) = emb_args (unparen_args args)).
+Proof.
+  apply ox_mutind; cbn [emb emb_posts emb_args unparen unparen_posts unparen_args strip_list]; trivial.
+  - intros r ps IH. cbn [strip_e]. rewrite IH. reflexivity.
+  - intros o l IHl r IHr. cbn [strip_e]. rewrite IHl, IHr. reflexivity.
+  - intros u x IH. cbn [strip_e]. rewrite IH. reflexivity.
+  - intros n ps IH a. rewrite IH. reflexivity.
+  - intros k ps IH a. rewrite IH. reflexivity.
+  - intros args IHa ps IHp a. rewrite IHp. cbn [strip_a]. fold strip_list. rewrite IHa. reflexivity.
+  - intros e IHe r IHr. rewrite IHe, IHr. reflexivity.
+Qed.
+
+(* ------------------------------------------------------------------------------------------- *)
+(* the theorems *)
+
+(* What may follow the expression text: nothing, or a token that (a) is not a comment and, when newlines
+   are being skipped, not a newline (the parser would step over it), (b) does not continue a postfix
+   chain or open a blob instantiation ( ' ( [ . { ), and (c) is not a valid infix token of the table. *)
+Definition follow_rest (T : ptab) (b : bool) (rest : list tok) : Prop :=
+  match rest with
+  | [] => True
+  | t :: _ => follow_tok b t = true /\ pt_valid T t = false
+  end.
+
+Theorem roundtrip_literal T : tab_ok T ->
+  forall e, lower_ok e = true -> dwf e = true ->
+  forall p rest ov b, follow_rest T b rest ->
+  exists f0, forall f, f0 <= f ->
+    go T f (QPrec (pt_entry T) (mkctx p (pp e ++ rest) ov b))
+    = Ok (RE (emb e) (mkctx (rev (pp e) ++ p) rest ov b)).
+Proof.
+  intros OK e L D p rest ov b F.
+  destruct (roundtrip_all T OK) as [HP _].
+  destruct (dwf_wf_all T OK) as [HW _].
+  apply (direct T OK e (HP e) L (HW e D)).
+  - apply entry_accepts. exact OK.
+  - destruct rest as [|t r]; [exact I|]. left. apply F.
+  - destruct rest as [|t r]; [exact I|]. apply F.
+  - destruct rest as [|t r]; [exact I|]. left. apply F.
+Qed.
+
+Theorem parse_literal T : tab_ok T ->
+  forall e, lower_ok e = true -> dwf e = true ->
+  forall rest, follow_rest T false rest ->
+  exists f0, forall f, f0 <= f -> exists c,
+    parse_expression T f (pp e ++ rest) = Ok (emb e, c)
+    /\ post c = rest /\ consumed c = length (pp e) /\ nl c = false.
+Proof.
+  intros OK e L D rest F.
+  destruct (roundtrip_literal T OK e L D [] rest 0 false F) as [f0 H].
+  exists f0. intros f Hf. exists (mkctx (rev (pp e) ++ []) rest 0 false).
+  unfold parse_expression, init. rewrite (H f Hf). cbn [as_E post nl consumed pre over].
+  split; [reflexivity|]. split; [reflexivity|]. split; [|reflexivity].
+  unfold consumed. cbn [pre over]. rewrite app_nil_r, rev_length. lia.
+Qed.
+
+Theorem roundtrip_min T : tab_ok T ->
+  forall e, lower_ok e = true ->
+  forall rest, follow_rest T false rest ->
+  exists f0, forall f, f0 <= f -> exists c,
+    parse_expression T f (print_min e ++ rest) = Ok (emb (minp e), c)
+    /\ post c = rest /\ consumed c = length (print_min e).
+Proof.
+  intros OK e L rest F.
+  destruct lower_minp_all as [LM _]. destruct dwf_minp_all as [DM _].
+  destruct (parse_literal T OK (minp e) ltac:(rewrite LM; exact L) (DM e) rest F) as [f0 H].
+  exists f0. intros f Hf. destruct (H f Hf) as (c & A & B & Cc & _). exists c. auto.
+Qed.
+
+Theorem roundtrip_full T : tab_ok T ->
+  forall e, lower_ok e = true ->
+  forall rest, follow_rest T false rest ->
+  exists f0, forall f, f0 <= f -> exists c,
+    parse_expression T f (print_full e ++ rest) = Ok (emb (fullp e), c)
+    /\ post c = rest /\ consumed c = length (print_full e).
+Proof.
+  intros OK e L rest F.
+  destruct lower_fullp_all as [LM _]. destruct dwf_fullp_all as [DM _].
+  destruct (parse_literal T OK (fullp e) ltac:(rewrite LM; exact L) (DM e) rest F) as [f0 H].
+  exists f0. intros f Hf. destruct (H f Hf) as (c & A & B & Cc & _). exists c. auto.
+Qed.
+
+Lemma strip_minp e : strip_e (emb (minp e)) = strip_e (emb e).
+Proof.
+  destruct strip_emb_all as [S _]. destruct unparen_minp_all as [Um _]. rewrite !S, Um. reflexivity.
+Qed.
+
+Lemma strip_fullp e : strip_e (emb (fullp e)) = strip_e (emb e).
+Proof.
+  destruct strip_emb_all as [S _]. destruct unparen_fullp_all as [Um _]. rewrite !S, Um. reflexivity.
+Qed.
+
+(* minimal and full parenthesisation parse to the same tree up to Parenthesis nodes *)
+Theorem same_tree T : tab_ok T ->
+  forall e, lower_ok e = true ->
+  forall rest, follow_rest T false rest ->
+  exists f0, forall f, f0 <= f -> exists t1 c1 t2 c2,
+    parse_expression T f (print_min e ++ rest) = Ok (t1, c1)
+    /\ parse_expression T f (print_full e ++ rest) = Ok (t2, c2)
+    /\ strip_e t1 = strip_e (emb e) /\ strip_e t2 = strip_e (emb e)
+    /\ post c1 = rest /\ post c2 = rest.
+Proof.
+  intros OK e L rest F.
+  destruct (roundtrip_min T OK e L rest F) as [f1 H1].
+  destruct (roundtrip_full T OK e L rest F) as [f2 H2].
+  exists (Nat.max f1 f2). intros f Hf.
+  destruct (H1 f ltac:(lia)) as (c1 & A1 & B1 & _).
+  destruct (H2 f ltac:(lia)) as (c2 & A2 & B2 & _).
+  exists (emb (minp e)), c1, (emb (fullp e)), c2.
+  repeat split; auto using strip_minp, strip_fullp.
+Qed.
